@@ -29,6 +29,8 @@ ORACLES = [
     (r'oracle :: impl Date / fn add_days|kani::od_add_days', ['od_add_days']),
     (r'timestamp :: impl Timestamp / fn add_days|kani::ts_add_days', ['ts_add_days']),
     (r'impl TryFrom<&?NaiveDateTime> for (IntervalDT|Time|Timestamp) / fn try_from', ['naive_carry']),
+    (r'kani::(parse_ind|parse_pic|parse_glue|parse_one_field|scan_|token_roundtrip)|impl TryFrom<&?NaiveDateTime> for (Date|Time|Timestamp) / fn try_from|format :: impl NaiveDateTime / fn adjust_hour12', ['parse_grid']),
+    (r'kani::(fmt_glue|fmt_tokens|tables_|week_day_name|naive_fraction|write_u32)|impl From<(Date|Time|Timestamp|IntervalDT)> for NaiveDateTime / fn from|format :: impl NaiveDateTime / fn |common :: fn the_day_of_year', ['format_grid']),
 ]
 
 
